@@ -76,8 +76,11 @@ understands the governed site, but each was still used to widen the recogniser.
     if os.path.exists(rr):
         res = json.load(open(rr))
         sil = sum(r["status"] == "silent" for r in res)
-        out.append("### Behaviour-preserving refactorings (current results of `seeded/run_refactors.py`, every check run on every patch)\n")
-        out.append("%d of %d refactorings leave all 48 checks silent (exit 0).\n" % (sil, len(res)))
+        out.append("### Behaviour-preserving refactorings (current results of `seeded/run_refactors.py`)\n")
+        out.append("%d of %d refactorings leave the checks silent (exit 0).  The run with all 48 checks on every patch "
+                   "(`--all-checks`, about an hour) was last done after round 11: 431 / 431 silent; after the final round 12 every patch was "
+                   "re-run with the checks whose evidence lists a function of a patched file (default mode), and the checks changed last "
+                   "(C33-C39) were re-run on all patches.\n" % (sil, len(res)))
         bad = [r for r in res if r["status"] != "silent"]
         if bad:
             out.append("| refactoring | status | checks that alarm |")
